@@ -215,6 +215,15 @@ func runCheck(r *propRun) int {
 		return failHard(r, "cannot load packages (does the tree build?): "+firstLines(err.Error(), 6))
 	}
 	tLoad := time.Since(t0).Seconds()
+	// bounded stand-ins run beside the deductive part (see bounded.go); never counted as proved
+	var boundedCh []chan *boundedResult
+	if r.funcOnly == "" && !r.update {
+		for _, bc := range loadBounded(r.verif, r.prop) {
+			ch := make(chan *boundedResult, 1)
+			boundedCh = append(boundedCh, ch)
+			go func(bc boundedCheck) { ch <- runBounded(r, bc) }(bc)
+		}
+	}
 	// register lib specs, then the contract files of loaded packages
 	libs, _ := filepath.Glob(filepath.Join(r.verif, "lib", "*.spec"))
 	sort.Strings(libs)
@@ -566,6 +575,39 @@ func runCheck(r *propRun) int {
 	for _, fe := range funcErrs {
 		emit(r.prop+"/"+strings.SplitN(fe, ":", 2)[0]+"/generate", "function under contract cannot be verified: "+fe, nil)
 	}
+	var boundedEv []map[string]interface{}
+	nBoundedBad := 0
+	for _, ch := range boundedCh {
+		b := <-ch
+		boundedEv = append(boundedEv, b.evidence())
+		name := r.prop + "/bounded/" + b.C.Name
+		fmt.Printf("  bounded    %-8s %6.1fs %s: %d cases (%d non-trivial), %s [%s]\n", b.Status, b.Secs, name, b.Cases, b.Nontrivial, b.C.Bound, b.C.Function)
+		if b.Status == "held" {
+			continue
+		}
+		if kf := isKnown(name); kf != nil {
+			knownHit = append(knownHit, fmt.Sprintf("KNOWN-FINDING: property=%s %s — %s", r.prop, name, kf.Text))
+			continue
+		}
+		nBoundedBad++
+		_ = os.MkdirAll(replayDir, 0o755)
+		rp := filepath.Join(replayDir, fileBase("bounded/"+b.C.Name)+".json")
+		rec := map[string]interface{}{"property": r.prop, "obligation": name, "tier": r.tier, "where": b.C.Pkg + " " + b.C.Function,
+			"solver": "go test (bounded stand-in, no solver)", "answer": b.Status, "replay_test": b.C.Src, "replay_pkg": b.C.Pkg,
+			"replay_run": "^TestVerifBounded$", "solver_output": truncate(b.Output, 20000)}
+		suffix := ""
+		if b.Status == "failed" {
+			rec["reason"] = "bounded stand-in found a failing input on the real function: " + b.FailCase
+			rec["replay"] = b.FailCase
+		} else {
+			rec["reason"] = "bounded stand-in can no longer be built or run against the function (signature changed, or the tree does not build)"
+			suffix = " no-failing-input-found"
+		}
+		data, _ := json.MarshalIndent(rec, "", " ")
+		_ = os.WriteFile(rp, data, 0o644)
+		fmt.Printf("VIOLATION property=%s replay=%s obligation=%s (%s)%s\n", r.prop, rp, name, truncate(fmt.Sprint(rec["reason"]), 400), suffix)
+		exit = 1
+	}
 	for _, k := range knownHit {
 		fmt.Println(k)
 	}
@@ -618,6 +660,9 @@ func runCheck(r *propRun) int {
 		"append always yields a fresh backing array (no aliasing through append)",
 		"allocation model: a callee that is not executed may expose new objects only in the id spaces reachable by type from its results and from what it may modify; error and context.Context values, and interface values handed out by 'ignore'd functions, are assumed not to carry references to newly allocated modelled objects",
 		"partial correctness: termination is not proved; implicit panics (nil/index) are assumed absent unless the function is marked nopanic")
+	for _, b := range boundedEv {
+		assumptions = append(assumptions, fmt.Sprintf("bounded stand-in, NOT proved: %v of %v is only run exhaustively up to the bound [%v] (%v cases this run)", b["stands_in_for"], b["function"], b["bound"], b["cases"]))
+	}
 	trusted = append(trusted, "go/packages+go/types+go/ssa (x/tools v0.50.0, naive form)", "govc VC generator (/verif/engine)", "z3 5.1.0 / z3 4.8.12 / cvc5 1.0.3", "built-in library theory of /verif/engine/cmd/govc/theory.go (Quantity, ResourceList accessors, math, bits, sets, time)")
 	for _, lf := range libs {
 		trusted = append(trusted, "extern contracts in "+strings.TrimPrefix(lf, r.verif+"/"))
@@ -658,11 +703,11 @@ func runCheck(r *propRun) int {
 			"nopanic_sweep_functions":  sweepFuncs,
 			"nopanic_sweep_armed":      len(sweepArmed),
 			"nopanic_sweep_notes":      sweepNotes,
-			"bounded":                  []string{},
+			"bounded":                  boundedEv,
 		},
 		"assumptions": assumptions,
 		"wall_s":      round3(time.Since(t0).Seconds()),
-		"violations":  len(violations) + len(missing) + len(funcErrs),
+		"violations":  len(violations) + len(missing) + len(funcErrs) + nBoundedBad,
 	}
 	_ = os.MkdirAll(filepath.Join(r.outBase(), "evidence"), 0o755)
 	data, _ := json.MarshalIndent(ev, "", " ")
@@ -670,7 +715,7 @@ func runCheck(r *propRun) int {
 		_ = os.WriteFile(filepath.Join(r.outBase(), "evidence", r.prop+".json"), data, 0o644)
 	}
 	fmt.Printf("%s %s: %d functions, %d obligations, %d discharged, %d cover ok, %d violations, %d known; load %.1fs gen %.1fs solve %.1fs\n",
-		r.prop, r.tier, len(funcs), nObl, nDis, nCover, len(violations)+len(missing)+len(funcErrs), len(knownHit), tLoad, tGen, tSolve)
+		r.prop, r.tier, len(funcs), nObl, nDis, nCover, len(violations)+len(missing)+len(funcErrs)+nBoundedBad, len(knownHit), tLoad, tGen, tSolve)
 	return exit
 }
 
